@@ -2828,9 +2828,9 @@ class VCGen:
             if not (isinstance(d_, ast.Name) and d_.id in ('staticmethod', 'classmethod')):
                 raise Unsupported(f'{qual} is decorated with {ast.unparse(d_)}: the contract is about the undecorated body')
         c['_loopnum'], c['_compnum'] = s.number_nodes(fn)
-        for k in c.get('loops', {}):
-            if k not in c['_loopnum'].values():
-                raise ContractError(f'{qual}: contract names loop #{k} but the function has {len(c["_loopnum"])} loops')
+        # a contract may name more loops than the function has (a loop was rewritten as a comprehension, which the engine
+        # characterises by itself): the surplus loop annotations are simply never used; every obligation still comes from the real code
+        c['_surplus_loops'] = [k for k in c.get('loops', {}) if k not in c['_loopnum'].values()]
         s.cur = c
         # locals renamed since the contract was written: the contract refers to locals by name; the lock file records the
         # order of first assignment of the locals of each function, and a function with the same number of locals in which
